@@ -48,6 +48,7 @@ def run(ctx, rep):
         protocol(db, rep)
         distinct(db, rep)
         determinism(db, rep)
+        count(db, rep)
     rep.note('configs', ctx.stone_configs())
 
 
@@ -249,3 +250,37 @@ def determinism(db, rep):
            f'matcher positive control hit {len(control)}/2', db.fns[VERIFY].loc(), cfg)
     # measured on the pinned tree: 150+ external callees
     rep.floor('C08.determinism', f'external callees scanned [{cfg}]', len(ext), 100)
+
+
+SQUEEZE_LEAF = 'call:' + TRANSCRIPT + '::random_felt'
+
+
+def count(db, rep):
+    """The number of transcript operations is fixed by the configuration and by the shape of the proof, never by the
+    values drawn: prover and verifier must perform the same sequence. Every loop and iterator pipeline of a function
+    that (transitively) touches the transcript is looked at (iteration sites of the C17 inventory, callee sites in
+    terms of verify's own values); a bound or exit condition that depends on a squeezed value is reported."""
+    import re
+    cfg = db.config
+    lay = db.layouts()
+    n = 0
+    for lname, lself in sorted(lay.items()):
+        b = {'Layout': lself}
+        B = fsm.Builder(db, b, label)
+        B.touches(VERIFY)
+        touching = {p for p, v in B._touch.items() if v}
+        for g in dataflow.effective_guards(db, VERIFY, b, sinks='iter'):
+            k = getattr(g, 'kind', '') or ''
+            if not k.startswith('iter') or k == 'iter:alloc':
+                continue
+            root = re.sub(r'(::\{closure#\d+\})+$', '', g.fn)
+            if root not in touching and g.fn not in touching:
+                continue
+            n += 1
+            dep = sorted(x for x in g.lhs | g.rhs if x.startswith(SQUEEZE_LEAF))
+            rep.ob('C08.count', f'{root}|{k}:{getattr(g, "root", "")}', not dep,
+                   f'{k} ({getattr(g, "root", "")}) in {root.split("::")[-1]}: ' +
+                   ('its bound does not depend on squeezed values' if not dep else
+                    f'how often it runs depends on values squeezed from the transcript ({dep[0][5:]}): the number of transcript '
+                    'operations would differ between prover and verifier'), db.fns[g.fn].loc(g.line), cfg)
+    rep.floor('C08.count', 'iteration sites in transcript-touching functions', n, 7)
